@@ -426,7 +426,7 @@ type rejection struct {
 // after the last "passed check" (an atom whose other branch was an error exit).
 func rejections(c *Ctx, fn *ssa.Function) []rejection {
 	var out []rejection
-	ps, _ := c.XO.Paths(fn, an.PathOpts{MaxPaths: 400000})
+	ps, _ := c.XO.Paths(fn, an.PathOpts{MaxPaths: 400000, InlinePaths: c.helperInline(fn)})
 	for _, p := range ps {
 		if p.Ret == nil || len(p.Results) == 0 || exprIsNil(p.Results[len(p.Results)-1]) || exprIsZero(p.Results[len(p.Results)-1]) {
 			continue
@@ -714,7 +714,7 @@ func c02Reject(c *Ctx) {
 		if f == nil {
 			continue
 		}
-		ps, _ := c.XO.Paths(f, an.PathOpts{MaxPaths: 400000, EmitCut: true})
+		ps, _ := c.XO.Paths(f, an.PathOpts{MaxPaths: 400000, EmitCut: true, InlinePaths: c.helperInline(f)})
 		type st struct{ tested, swallowed bool }
 		sites := map[ssa.Value]*st{}
 		for _, b := range f.Blocks {
@@ -1113,7 +1113,7 @@ func c02Totality(c *Ctx) {
 			}
 		}
 		// nil-guarded dereferences of pointer-typed raw fields
-		ps, _ := c.XO.Paths(fn, an.PathOpts{MaxPaths: 400000, EmitCut: true})
+		ps, _ := c.XO.Paths(fn, an.PathOpts{MaxPaths: 400000, EmitCut: true, InlinePaths: c.helperInline(fn)})
 		reported := map[string]bool{}
 		for _, p := range ps {
 			nonNil := map[string]bool{}
